@@ -615,11 +615,11 @@ where
                 return Step::Stop;
             }
         }
-        if self.rc.obs(15) && self.model.len() == 1 && exhausted {
+        if self.rc.obs(15) && exhausted && self.model.iter().all(|m| m.exp >= t) {
             // single insert: the masks meet iff the bucket ranges overlap
             self.out.observations += 1;
             if ids != expected {
-                self.out.fail(15, "masks-disagree-with-overlap", i, format!("SegExpTree: value stored for buckets {}..{}; query over buckets {}..{} yielded {:?}, overlap says {:?}", self.lay.bucket(self.model[0].lo), self.lay.bucket(self.model[0].hi), b0, b1, ids, expected));
+                self.out.fail(15, "masks-disagree-with-overlap", i, format!("SegExpTree: {} values stored; query over buckets {}..{} yielded ids {:?}, bucket overlap says {:?}", self.model.len(), b0, b1, ids, expected));
                 return Step::Stop;
             }
         }
